@@ -820,11 +820,10 @@ func main() {
 		func(emit func(kase) bool) { nearMiss(corpus, func(x string) bool { return emit(kase{x: x}) }) })
 	// family 3b: struct arity near misses
 	ga := sigen.Default(2)
-	ga.Outer, ga.Inner = "is", "is"
-	wide := 3
-	if tier == "thorough" {
-		ga.Outer, ga.Inner = "isbmC", "ism"
-		wide = 4
+	wide := 4
+	if tier != "thorough" {
+		ga.Outer, ga.Inner = "ism", "is"
+		wide = 3
 	}
 	arityBasesN, arityNodesN := 0, 0
 	runFam("arity", fmt.Sprintf("struct arity near misses: for every struct node of every base signature - the hygiene family, every signature of Sig(2,2) holding a struct (leaves at distance <= 1 over %s, deeper over %s), "+
